@@ -57,6 +57,8 @@ from asynkit.loop.eventloop import SchedulingSelectorEventLoop
 logging.getLogger("asyncio").disabled = True
 
 CONFIGS = ("stock", "sched", "prio")
+# one more, used by c08 for the long programs only: "prio-seq" = "prio" with the heap's arrival counter preset to 65 530
+# (white-box; see RealRunner.make_loop and notes/C08.md round 9)
 
 
 # ---------------------------------------------------------------------------------------
@@ -315,6 +317,14 @@ class RealRunner:
             loop = PrioritySelectorEventLoop()
             if self.boost is not None:
                 loop.ready_queue.priority_boost_factor = self.boost
+            if self.config == "prio-seq":
+                # WHITE-BOX NUDGE (the only one): the arrival counter of the (empty) heap starts just below
+                # 2**16 instead of at 0, as it would after ~65 000 insertions without the queue running empty.
+                # Sequence numbers only matter relative to each other, so nothing observable changes.
+                try:
+                    loop.ready_queue._pq._sequence = 65530
+                except AttributeError:
+                    pass
             try:      # statistics only: count maintenance rounds
                 orig_maint = loop.ready_queue.do_maintenance
 
@@ -332,7 +342,7 @@ class RealRunner:
         sid = self.next_sid
         self.next_sid = None
         spec = self.prog["tasks"][sid]
-        if self.config == "prio" and spec["kind"] == "prio":
+        if self.config.startswith("prio") and spec["kind"] == "prio":
             task = PriorityTask(coro, loop=loop, priority=pri_obj(spec["pri"]), **kw)
         else:
             task = asyncio.Task(coro, loop=loop, **kw)
@@ -1133,6 +1143,32 @@ def gen_chain(rng):
     init = [["t", 0]] + [["t", depth + 1 + i] for i in range(nb)]
     rng.shuffle(init)
     return {"tasks": tasks, "init": init, "locks": depth}
+
+
+HUGE = ["f:1152921504606846976.0", "f:1152921504606847232.0", "f:1152921504606847488.0",      # 2**60 + k * 2**8
+        "f:9007199254740992.0", "f:9007199254740994.0", "i:1152921504606846976"]                  # 2**53, 2**53 + 2
+
+
+def gen_huge(rng):
+    """priorities of huge magnitude (EDF deadlines from time_ns(): >= 2**53, where `x - 1 == x` in floating
+    point) at the head of the queue while two or more callbacks are stacked positionally: positional entries
+    must still run first, in their requested order.  Only PriorityTasks are queued when the inserts happen
+    (a plain callback at priority 0 would be the head)."""
+    n = rng.randint(2, 4)
+    k = [600]
+
+    def lab():
+        k[0] += 1
+        return k[0]
+    stack = [["cp", 0, lab()], ["cp", 0, lab()]]
+    for _ in range(rng.randint(0, 2)):
+        stack.append(["cp", rng.randint(0, len(stack)), lab()])
+    first = stack + [rng.choice([["it"], ["sleep0"], ["si", rng.randint(0, 3)]]), ["sleep0"]]
+    tasks = [{"kind": "prio", "pri": HUGE[0] if rng.random() < 0.7 else HUGE[3], "ops": first}]
+    for i in range(1, n):
+        ops = [rng.choice([["sleep0"], ["si", rng.randint(0, 2)], ["cp", rng.randint(0, 1), lab()]]) for _ in range(rng.randint(1, 3))]
+        tasks.append({"kind": "prio", "pri": rng.choice(HUGE), "ops": ops})
+    return {"tasks": tasks, "init": [["t", i] for i in range(n)], "locks": 0}
 
 
 def gen_inflight(rng):
